@@ -4,10 +4,16 @@ from .. import common, regen, translate_attrs
 BACKENDS = ("numba", "numpy", "cuda")
 
 
+_LAYOUT = [0]
+
+
 def analyse(x, y, fs, kw, backend):
+    """The pair is passed in one of the documented layouts in turn: 2 x N, N x 2 (one column per channel), list of channels."""
     from speckit.analysis import SpectrumAnalyzer
+    _LAYOUT[0] += 1
+    data = [np.vstack([x, y]), np.column_stack([x, y]), [x, y]][_LAYOUT[0] % 3]
     with np.errstate(all="ignore"):
-        return SpectrumAnalyzer(np.vstack([x, y]), fs, backend=backend, **kw).compute()
+        return SpectrumAnalyzer(data, fs, backend=backend, **kw).compute()
 
 
 def sweep(ck):
